@@ -205,6 +205,9 @@ Mutations(x) ==
     \cup {[m |-> "meta_del", n |-> n] : n \in x.meta}
     \cup UNION {{[m |-> "cmeta_rename", c |-> c, n |-> n] : n \in x.cm[c]} : c \in 1..Len(x.cols)}
     \cup CellMuts(x)
+    \* the two column names exchanged while the cells stay where they are: each name now heads the other's cells
+    \cup (IF Len(x.cols) = 2 /\ \E r \in 1..Len(x.rows) : Material(x.rows[r][1], x.rows[r][2])
+          THEN {[m |-> "cols_swapped"]} ELSE {})
     \cup {[m |-> "not_a_grid", to |-> y] : y \in 1..Len(NonGrids)}
 
 Mutate1(x, m) ==
@@ -215,6 +218,7 @@ Mutate1(x, m) ==
       [] m.m = "meta_add"    -> [x EXCEPT !.meta = x.meta \cup {NewName}]
       [] m.m = "meta_del"    -> [x EXCEPT !.meta = x.meta \ {m.n}]
       [] m.m = "cmeta_rename" -> [x EXCEPT !.cm = SetAt(x.cm, m.c, (x.cm[m.c] \ {m.n}) \cup {NewName})]
+      [] m.m = "cols_swapped" -> [x EXCEPT !.cols = <<x.cols[2], x.cols[1]>>, !.cm = <<x.cm[2], x.cm[1]>>]
       [] m.m = "not_a_grid"  -> NonGrids[m.to]
       [] OTHER -> [x EXCEPT !.rows = SetAt(x.rows, m.r, SetAt(x.rows[m.r], m.c, CellDom[m.to]))]
 
